@@ -100,4 +100,42 @@ def valueHdrs (cfg : Hdrs) (acts : List Act) (j : Nat) : Option Hdrs :=
 def readsRight (copies : Bool) (cfg : Hdrs) (acts : List Act) : Prop :=
   ∀ jh ∈ (runRef copies cfg RefState.init acts).reads, valueHdrs cfg acts jh.1 = some jh.2
 
+/-! ### what the decoder does to its accumulator at the end of a pass (round 3)
+
+`stepRef` gives the decoder a NEW accumulator map at every new pass (`d.Header = http.Header{}`,
+`d.header = make(http.Header)`).  What the source really does there is regenerated (`PassReset`), and the system is
+modelled for each possibility: a fresh map, the old map emptied in place (`clear(d.header)` / a `delete` loop) — safe
+exactly because the delivered ammo hold clones —, or nothing at all. -/
+
+/-- regenerated from `uriDecoder.Scan` / `uripostDecoder.Scan`: how the accumulator is reset when the file wraps around -/
+inductive PassReset where
+  | fresh          -- the field is assigned a new empty map (`http.Header{}`, `make(http.Header)`)
+  | cleared        -- the same map is emptied in place (`clear(m)`, `for k := range m { delete(m, k) }`)
+  | kept           -- the accumulator is not touched: header lines of the previous pass stay in force
+  | other (what : String)
+deriving DecidableEq, Repr
+
+/-- the reset forgets the header lines of the pass that ended -/
+def PassReset.forgets : PassReset → Bool
+  | .fresh => true
+  | .cleared => true
+  | _ => false
+
+/-- the cloning decoder (`stepRef true`) with the given end-of-pass behaviour -/
+def stepRefR (reset : PassReset) (cfg : Hdrs) (s : RefState) : Act → RefState
+  | .dec .newPass =>
+    match reset with
+    | .fresh => { s with heap := upd s.heap s.next [], next := s.next + 1, acc := s.next }
+    | .cleared => { s with heap := upd s.heap s.acc [] }
+    | _ => s
+  | a => stepRef true cfg s a
+
+def runRefR (reset : PassReset) (cfg : Hdrs) : RefState → List Act → RefState
+  | s, [] => s
+  | s, a :: r => runRefR reset cfg (stepRefR reset cfg s a) r
+
+/-- every `BuildRequest` of the run saw the header set of the value model (which starts every pass from nothing) -/
+def readsRightR (reset : PassReset) (cfg : Hdrs) (acts : List Act) : Prop :=
+  ∀ jh ∈ (runRefR reset cfg RefState.init acts).reads, valueHdrs cfg acts jh.1 = some jh.2
+
 end Pandora.Model.C07
